@@ -5,7 +5,8 @@
 //!   replay --in scripts.ndjson --out trace.ndjson
 //!       every line of --in is `{"path":[{op,m,m2,side,a}..]}` printed by TLC (MC_Vaults): a script of
 //!       abstract operations.  Each operation becomes the real instruction sequence (create / execute /
-//!       close of a deposit, withdrawal, swap order, shift; claim_fees_from_market; market_transfer_in;
+//!       close of a deposit, withdrawal, swap order, shift, increase / decrease order; claim_fees_from_market;
+//!       market_transfer_in;
 //!       a plain SPL transfer into a vault) with scaled amounts, from a copy of the funded world.
 //!   random --seed S --n N --out trace.ndjson
 //!       random scripts (incl. deposits / withdrawals / swap orders along 1-3 hop paths) until N events.
@@ -24,7 +25,12 @@ fn abs_of(r2: &R2, v: &Value, k: usize) -> AbsOp {
     let s = |f: &str| v[f].as_str().unwrap_or("none").to_string();
     let side = s("side");
     AbsOp {
-        op: s("op"),
+        // the design's collateral in / out are MarketIncrease / MarketDecrease orders
+        op: match s("op").as_str() {
+            "collateral_in" => "increase".to_string(),
+            "collateral_out" => "decrease".to_string(),
+            other => other.to_string(),
+        },
         m: mi(r2, &s("m")),
         m2: mi(r2, &s("m2")),
         side_long: side == "long" || side == "A",
